@@ -184,9 +184,11 @@ class Duration(timedelta):
     def hours(self) -> int:
         if self._h is None:
             seconds = self._seconds
-            self._h = 0
+            hours = 0
             if abs(seconds) >= 3600:
-                self._h = (abs(seconds) // 3600 % 24) * self._sign(seconds)
+                hours = (abs(seconds) // 3600 % 24) * self._sign(seconds)
+
+            self._h = hours
 
         return self._h
 
@@ -194,9 +196,11 @@ class Duration(timedelta):
     def minutes(self) -> int:
         if self._i is None:
             seconds = self._seconds
-            self._i = 0
+            minutes = 0
             if abs(seconds) >= 60:
-                self._i = (abs(seconds) // 60 % 60) * self._sign(seconds)
+                minutes = (abs(seconds) // 60 % 60) * self._sign(seconds)
+
+            self._i = minutes
 
         return self._i
 
@@ -207,8 +211,8 @@ class Duration(timedelta):
     @property
     def remaining_seconds(self) -> int:
         if self._s is None:
-            self._s = self._seconds
-            self._s = abs(self._s) % 60 * self._sign(self._s)
+            seconds = self._seconds
+            self._s = abs(seconds) % 60 * self._sign(seconds)
 
         return self._s
 
